@@ -244,7 +244,7 @@ func runC18(run *core.Run) {
 	if run.Tier == "thorough" {
 		depth = 5
 	}
-	run.Rule = fmt.Sprintf("every string up to length %d (quick: plus length 4 over 9 class representatives) over 16 class representatives {: # @ * blank tab LF a 0 _ | . + - / é}, boundary lengths around every limit (1, 2, 50/51, 254/255, 256/257 in code points, with multi-byte characters), random Unicode strings; each string goes through all 9 validators and the decomposition predicate R5 (soundness and completeness); the five Rule* constants of the running Go package compared with the strings in the JS and Java sources; non-trivial = string accepted by at least one validator; distinct by string", depth)
+	run.Rule = fmt.Sprintf("every string up to length %d (quick: plus length 4 over 9 class representatives) over 16 class representatives {: # @ * blank tab LF a 0 _ | . + - / é}, strings composed as type SEP id SEP relation from pools of legal and hostile parts (thorough: 11 x 5 x 14 x 6 x 11 shapes; quick: 6 x 3 x 7 x 4 x 6), boundary lengths around every limit (1, 2, 50/51, 254/255, 256/257 in code points, with multi-byte characters), random Unicode strings; each string goes through all 9 validators and the decomposition predicate R5 (soundness and completeness); the five Rule* constants of the running Go package compared with the strings in the JS and Java sources; non-trivial = string accepted by at least one validator; distinct by string", depth)
 	checkRuleStrings(run)
 	total := 0
 	pw := 1
@@ -286,6 +286,39 @@ func runC18(run *core.Run) {
 			checkValidators(run, sb.String())
 		})
 		run.Count("exhaustive_strings_length_4_over_9_classes", int64(t2))
+	}
+	// composed shapes: type SEP id SEP relation with every part drawn from a pool of legal and hostile variants
+	// (the shortest string of some shapes, e.g. wildcard + relation "t:*#r", is longer than the exhaustive bound)
+	{
+		types := []string{"", "a", "doc", "é", "a b", "a*", "a@", "*", "a:b", strings.Repeat("t", 254), strings.Repeat("t", 255)}
+		seps1 := []string{":", "", "::", "#", ": "}
+		ids := []string{"", "x", "1", "*", "**", "x*", "*x", "a b", "x|y", "x@y.z", "é", "x:y", "x#y", strings.Repeat("i", 250)}
+		seps2 := []string{"", "#", "##", ":", "@", " #"}
+		rels := []string{"", "r", "member", "*", "r*", "a b", "r#s", "r:s", "é", strings.Repeat("r", 50), strings.Repeat("r", 51)}
+		if run.Tier == "quick" {
+			types = []string{"", "a", "é", "a b", "a*", "*"}
+			seps1 = []string{":", "", "::"}
+			ids = []string{"", "x", "*", "x*", "a b", "x@y.z", "x#y"}
+			seps2 = []string{"", "#", "##", ":"}
+			rels = []string{"", "r", "*", "a b", "r#s", strings.Repeat("r", 51)}
+		}
+		var cs []string
+		for _, t := range types {
+			for _, s1 := range seps1 {
+				for _, id := range ids {
+					for _, s2 := range seps2 {
+						for _, rel := range rels {
+							if s2 == "" && rel != "" {
+								continue
+							}
+							cs = append(cs, t+s1+id+s2+rel)
+						}
+					}
+				}
+			}
+		}
+		core.Parallel(len(cs), func(i int) { checkValidators(run, cs[i]) })
+		run.Count("composed_shape_strings", int64(len(cs)))
 	}
 	// boundaries
 	var bs []string
